@@ -17,7 +17,8 @@
 (*   out   bytes accepted by the writer; budget: bytes it still accepts    *)
 (*         (-1 = unlimited)                                                *)
 (*   st    run | ok | err | unspec (left the specified region) | blowup | fuel *)
-(*   evs   history: the snapshot after every completed statement           *)
+(*   evs   history: the snapshot after every completed statement (all of   *)
+(*         them, the latest only, or none: rec); nev: how many there were  *)
 (*   acts  history: the machine actions exercised                          *)
 (*                                                                         *)
 (* Syntax trees are records; see the constructors below.  Names are        *)
@@ -181,9 +182,11 @@ ChainRoot(t) == IF t.e = "idx" THEN ChainRoot(t.a) ELSE t
 Init0(prog, inp, budget, failAt) ==
   [K |-> <<FProg(prog, 1)>>, V |-> <<>>, env |-> <<<<>>>>, last |-> <<>>,
    act |-> <<[cf |-> "normal", ret |-> <<>>]>>, inp |-> inp, buf |-> "", rd |-> 0, failAt |-> failAt,
-   out |-> "", budget |-> budget, st |-> "run", evs |-> <<>>, rec |-> TRUE, acts |-> {}, steps |-> 0]
+   out |-> "", budget |-> budget, st |-> "run", evs |-> <<>>, nev |-> 0, rec |-> "all", acts |-> {}, steps |-> 0]
 (* the same machine without the history of snapshots (runs whose scope stacks are hundreds deep) *)
-InitQuiet(prog, inp, budget, failAt) == [Init0(prog, inp, budget, failAt) EXCEPT !.rec = FALSE]
+InitQuiet(prog, inp, budget, failAt) == [Init0(prog, inp, budget, failAt) EXCEPT !.rec = "none"]
+(* the same machine keeping only the latest snapshot (trace validation of long runs: nev counts them) *)
+InitLast(prog, inp, budget, failAt) == [Init0(prog, inp, budget, failAt) EXCEPT !.rec = "last"]
 
 Cf(m) == m.act[Len(m.act)].cf
 SetCf(m, c) == [m EXCEPT !.act[Len(m.act)].cf = c]
@@ -303,7 +306,9 @@ Step(m) ==
          IF fr.ph = "next" THEN
            IF fr.j > Len(fr.ss) THEN [m EXCEPT !.K = rest]
            ELSE [m EXCEPT !.K = <<FStmt(fr.ss[fr.j]), FBlock(fr.ss, fr.j, "after")>> \o rest]
-         ELSE LET m1 == IF m.rec THEN [m EXCEPT !.evs = Append(m.evs, Snapshot(m, fr.ss[fr.j]))] ELSE m IN
+         ELSE LET m1 == CASE m.rec = "all" -> [m EXCEPT !.evs = Append(m.evs, Snapshot(m, fr.ss[fr.j])), !.nev = m.nev + 1]
+                          [] m.rec = "last" -> [m EXCEPT !.evs = <<Snapshot(m, fr.ss[fr.j])>>, !.nev = m.nev + 1]
+                          [] OTHER -> m IN
               IF Cf(m) # "normal" THEN [m1 EXCEPT !.K = rest]
               ELSE [m1 EXCEPT !.K = <<FBlock(fr.ss, fr.j + 1, "next")>> \o rest]
     [] k = "stmt" -> StepStmt(m, rest, fr.s)
